@@ -301,17 +301,32 @@ fn run_line_here(line: &str) -> String {
         hist::PARALLEL.store(true, std::sync::atomic::Ordering::SeqCst);
         // every op after `||` runs on its own thread, released together
         let barrier = Arc::new(std::sync::Barrier::new(par_ops.len()));
-        let mut handles = Vec::new();
+        // each thread reports over a channel; a thread that has not reported when the watchdog expires is stuck
+        // (two calls waiting for each other's lock): its result is DEADLOCK and the process ends after this line
+        let mut chans = Vec::new();
         for o in par_ops.iter() {
             let o = o.to_string();
             let b = barrier.clone();
-            handles.push(std::thread::Builder::new().stack_size(2 * 1024 * 1024).spawn(move || {
+            let (tx, rx) = std::sync::mpsc::channel::<String>();
+            std::thread::Builder::new().stack_size(2 * 1024 * 1024).spawn(move || {
                 b.wait();
-                guarded(|| run_op(&o))
-            }).unwrap());
+                let r = std::panic::catch_unwind(std::panic::AssertUnwindSafe(|| guarded(|| run_op(&o))))
+                    .unwrap_or_else(|_| "PANIC".to_string());
+                let _ = tx.send(r);
+            }).unwrap();
+            chans.push(rx);
         }
-        for h in handles {
-            res.push(h.join().unwrap_or_else(|_| "PANIC".to_string()));
+        let deadline = std::time::Instant::now() + std::time::Duration::from_millis(2 * hist::WATCHDOG_MS);
+        for rx in chans {
+            let left = deadline.saturating_duration_since(std::time::Instant::now());
+            match rx.recv_timeout(left) {
+                Ok(r) => res.push(r),
+                Err(std::sync::mpsc::RecvTimeoutError::Timeout) => {
+                    DEAD.store(true, std::sync::atomic::Ordering::SeqCst);
+                    res.push("DEADLOCK".to_string());
+                }
+                Err(_) => res.push("PANIC".to_string()),
+            }
         }
     }
     format!("{} {}", id, res.join(" "))
